@@ -122,6 +122,14 @@ class StreamSession:
         if self._input_writer is None:
             self._input_writer = new_ipc_stream(self._writer_stream, batch_to_write.schema)
             self._input_schema = batch_to_write.schema
+        elif batch_to_write.schema != self._input_schema:
+            # An IPC stream cannot change schema mid-way.  Refuse before anything
+            # is written, so this is the caller's error and not a broken transport.
+            raise RpcError(
+                "TypeError",
+                f"Input schema mismatch: expected {self._input_schema}, got {batch_to_write.schema}",
+                "",
+            )
         if wire_stream_logger.isEnabledFor(logging.DEBUG):
             wire_stream_logger.debug(
                 "Stream write input: %s, first_write=%s",
@@ -167,6 +175,10 @@ class StreamSession:
             wire_stream_logger.debug("Stream exchange: sending input")
         try:
             self._write_batch(input)
+        except RpcError:
+            # Refused before anything was written: end the stream in step with the server.
+            self.close()
+            raise
         except _TRANSPORT_ERRORS as exc:
             # Set _closed directly — calling close() would attempt I/O on the broken transport.
             self._closed = True
